@@ -18,6 +18,8 @@ from __future__ import annotations
 import ast
 import collections
 import math as _math
+import functools as _functools
+import itertools as _itertools
 import re
 import string as _string
 import textwrap as _textwrap
@@ -382,6 +384,12 @@ class _Uuid:
         return "1b4e28ba-2fa1-11d2-883f-" + self.hex
 
 
+def _identity_decorator(*a, **k):
+    if len(a) == 1 and callable(a[0]) and not k:
+        return a[0]
+    return lambda f: f
+
+
 def _re_sub(pattern, repl, s, count=0, flags=0):
     return re.sub(pattern, repl, s, count=count, flags=flags)
 
@@ -403,8 +411,8 @@ class Interp:
                     "digits", "printable", "punctuation", "whitespace",
                     "hexdigits", "octdigits")}),
             "textwrap": StubModule("textwrap", {"indent": _textwrap.indent}),
-            "re": StubModule("re", {"sub": _re_sub, "escape": re.escape,
-                                    "compile": re.compile}),
+            "re": StubModule("re", {
+                k: getattr(re, k) for k in dir(re) if not k.startswith("_")}),
             "secrets": StubModule("secrets", {
                 "token_hex": _token_hex,
                 "token_urlsafe": lambda n=16: "u-R_l" + _token_hex(n)}),
@@ -420,6 +428,13 @@ class Interp:
                 if not k.startswith("_")}),
             "collections": StubModule(
                 "collections", {"deque": collections.deque}),
+            "functools": StubModule("functools", {
+                "partial": _functools.partial, "reduce": _functools.reduce,
+                "lru_cache": _identity_decorator, "cache": lambda f: f,
+                "wraps": lambda f: (lambda g: g)}),
+            "itertools": StubModule("itertools", {
+                k: getattr(_itertools, k) for k in dir(_itertools)
+                if not k.startswith("_")}),
             "types": StubModule("types", {"FunctionType": FUNCTION_TYPE}),
             "enum": StubModule("enum", {"Enum": "ENUM_BASE"}),
         }
@@ -609,7 +624,7 @@ class Interp:
             if attr == "__name__":
                 return "function"
         if isinstance(obj, (str, list, tuple, dict, set, frozenset, int,
-                            collections.deque, bytes, range, re.Pattern,
+                            collections.deque, bytes, range, re.Pattern, re.Match,
                             _Uuid,
                             type(iter([])),
                             type(iter("")), type(iter(())), float)) \
